@@ -98,6 +98,12 @@ def _targets(tier):
             d = _sd([_kv(p, i) for p, i in zip(degs, ints)], list(degs), rat, 3)
             vdescs.append(d)
             one(d)
+    # ---- beyond the small sizes: degree up to 6 / 12 control points per direction, and shapes with more than 256 control points
+    from .. import util_knots as K
+    tall = K.tall_curve_shapes(tier)[1::5] + K.tall_surface_shapes(tier)[1::4] + K.huge_shapes(tier)
+    for d in tall:
+        one(d)
+    T.append(dict(shapes=[s for s in K.huge_shapes(tier, pdims=(2,))[1:]], container=True))
     # ---- containers: 1..3 different elements, mixed rationality/degree
     c3 = [_sd([_kv(2, [(0.5, 1)])], [2], False, 3), _sd([_kv(3, [])], [3], True, 3), _sd([_kv(1, [(0.25, 1)])], [1], True, 3, 'spike')]
     c2 = [_sd([_kv(2, [])], [2], True, 2), _sd([_kv(1, [(0.5, 1)])], [1], False, 2)]
@@ -145,10 +151,21 @@ def gen_cases(tier, seed):
     for tg in _targets(tier):
         dim = tg['shapes'][0]['dim']
         singles = [[o] for o in _ops(dim)]
-        for grp in (singles[i:i + 8] for i in range(0, len(singles), 8)):
+        g1, g2 = 8, 9
+        if any(s.get('huge') for s in tg['shapes']):
+            # huge targets (~6 s per transform): one chain per case; first and last letter of each kind of transform
+            g1, g2 = 1, 1
+            keep = []
+            for kind in ('translate', 'rotate', 'scale'):
+                ks = [o for o in singles if o[0]['op'] == kind]
+                keep += [ks[0], ks[-1]] if (tier != 'quick' or kind == 'rotate') else [ks[0]]
+            singles = keep
+        for grp in (singles[i:i + g1] for i in range(0, len(singles), g1)):
             cases.append(dict(target=tg, chains=grp))
         ch = _chains(dim, tier)
-        for grp in (ch[i:i + 9] for i in range(0, len(ch), 9)):
+        if g2 == 1:
+            ch = ch[:1]
+        for grp in (ch[i:i + g2] for i in range(0, len(ch), g2)):
             chained.append(dict(target=tg, chains=grp))
     return cases + chained
 
